@@ -295,9 +295,70 @@ def _guards_to_nesting(body: list) -> list:
     return out
 
 
+_RET = "_ret__value"
+
+
+def _single_exit(body: list) -> Optional[list]:
+    """a helper that returns values from several places -- each return the last statement of the body or of an arm of a
+    conditional on the main line -- with one exit: the value is bound to a result local and what followed an exiting arm becomes
+    the other arm.  None when a return sits anywhere else (in a loop, try, with)."""
+    def has_ret(x):
+        return any(isinstance(y, ast.Return) for y in ast.walk(x))
+
+    def conv(stmts):
+        out = []
+        for k, st in enumerate(stmts):
+            if isinstance(st, ast.Return):
+                out.append(ast.Assign(targets=[ast.Name(id=_RET, ctx=ast.Store())], value=st.value or ast.Constant(value=None), lineno=st.lineno))
+                return out, True
+            if isinstance(st, ast.If) and has_ret(st):
+                if has_ret(st.test):
+                    return None, False
+                a = conv(list(st.body))
+                b = conv(list(st.orelse)) if st.orelse else ([], False)
+                if a[0] is None or b[0] is None:
+                    return None, False
+                rest = stmts[k + 1:]
+                if a[1] and b[1]:
+                    out.append(ast.If(test=st.test, body=a[0], orelse=b[0]))
+                    return out, True
+                r = conv(list(rest))
+                if r[0] is None:
+                    return None, False
+                if a[1]:
+                    out.append(ast.If(test=st.test, body=a[0], orelse=(b[0] + r[0]) or [ast.Pass()]))
+                    return out, r[1]
+                if b[1]:
+                    out.append(ast.If(test=st.test, body=(a[0] + r[0]) or [ast.Pass()], orelse=b[0]))
+                    return out, r[1]
+                return None, False
+            if has_ret(st) and not isinstance(st, (ast.FunctionDef, ast.AsyncFunctionDef, ast.ClassDef)):
+                return None, False
+            out.append(st)
+        return out, False
+    res, exits = conv(list(body))
+    if res is None:
+        return None
+    if not exits:
+        # some path falls off the end: that is 'return None' -- only sound when every path that does not assign falls through here
+        res = [ast.Assign(targets=[ast.Name(id=_RET, ctx=ast.Store())], value=ast.Constant(value=None), lineno=getattr(body[0], "lineno", 1))] + res \
+            if not any(isinstance(x, ast.Name) and x.id == _RET for s_ in res for x in ast.walk(s_)) else None
+        return res
+    return res
+
+
 def _stmt_form(h) -> Optional[tuple]:
     """(statements, returned expression or None) for (S)"""
     body = _body(h.node)
+    # value returns from several places: one exit
+    n_val_returns = sum(1 for s_ in body for x in ast.walk(s_) if isinstance(x, ast.Return) and x.value is not None)
+    if n_val_returns >= 2 and not _has(ast.Module(body=body, type_ignores=[]), (ast.Yield, ast.YieldFrom)):
+        se = _single_exit(copy.deepcopy(body))
+        if se is not None:
+            for s_ in se:
+                ast.fix_missing_locations(s_)
+            if not any(_has(s_, (ast.Return, ast.Global, ast.Nonlocal, ast.Await)) for s_ in se):
+                return se, ast.Name(id=_RET, ctx=ast.Load())
     if any(isinstance(s, ast.If) and len(s.body) == 1 and isinstance(s.body[0], ast.Return) and s.body[0].value is None for s in body) \
             and not any(isinstance(x, ast.Return) and x.value is not None for s in body for x in ast.walk(s)):
         body = _guards_to_nesting(body)
